@@ -73,16 +73,16 @@ func classify(msg string) string {
 
 // ---- protocol settings ------------------------------------------------------
 type Settings struct {
-	Limit     uint64
-	Genesis   uint64
-	HalfLife  float64
-	Base      uint64
-	ILimit    uint64
-	Fee       uint64
-	Units     uint64
-	Timeout   time.Duration
-	Interval  int64 // ns
-	VerifCnt  int64
+	Limit    uint64
+	Genesis  uint64
+	HalfLife float64
+	Base     uint64
+	ILimit   uint64
+	Fee      uint64
+	Units    uint64
+	Timeout  time.Duration
+	Interval int64 // ns
+	VerifCnt int64
 }
 
 func (s *Settings) BlocksCountLimit() uint64               { return s.Limit }
